@@ -99,6 +99,9 @@ class C11(Prop):
         self.reach_probe(out, spec, ex0)
         Bs = [spec["only_B"]] if "only_B" in spec else self.subsets(spec, ex0, spec.get("tier", "quick"))
         for B in Bs:
+            if lane.expired():
+                out.count("enumeration_truncated_by_budget")
+                break
             sa = copy.deepcopy(spec)
             sb = copy.deepcopy(spec)
             for (i, kind, x, off, bit) in B:
